@@ -258,6 +258,9 @@ class AQTSampler(cirq.Sampler):
             line_qubit = cast(tuple[cirq.LineQubit], op.qubits)
             op = cast(cirq.GateOperation, op)
             qubit_idx = [obj.x for obj in line_qubit]
+            if any(idx < 0 for idx in qubit_idx):
+                # There is no register position for it (a negative index would address from the end).
+                raise ValueError(f'Qubits must have non-negative line indices, got: {op.qubits}')
             op_str = get_op_string(op)
             gate: cirq.EigenGate | cirq.PhasedXPowGate
             if op_str == 'R':
